@@ -88,6 +88,10 @@ def gen_c15(rng: random.Random, sid: str, thorough: bool) -> dict:
         if k % 25 == 10:
             # keep a lookup waiting for records throughout the stream
             steps.append({'op': 'lookup', 'type': REMOTE_T, 'name': 'Lost._http._tcp.local.', 'timeout': rng.choice([3000, 10000])})
+            if rng.random() < 0.4:
+                # ... which the application cancels a little later, in the very iteration in which an answer for it arrives
+                t += rng.choice([1, 150, 700])
+                steps += [{'op': 'at', 't': t}, {'op': 'lookup_cancel'}]
         if rng.random() < 0.04:
             # well-formed queries only, but many of them inside and just after one aggregation window (the same question again and
             # again, then another one): the answer queues are emptied, merged and re-armed in every order
